@@ -28,6 +28,7 @@ def install(E):
     mkexc("OverflowError", B["ArithmeticError"])
     mkexc("NotImplementedError", B["RuntimeError"])
     mkexc("RecursionError", B["RuntimeError"])
+    mkexc("NonTermination", B["RuntimeError"])
     mkexc("UnboundLocalError", B["NameError"])
     mkexc("ModuleNotFoundError", B["ImportError"])
     mkexc("UnicodeError", B["ValueError"])
@@ -1301,6 +1302,11 @@ def install_harness_api(E):
     def set_range_cap(k):
         E.range_cap = k
 
+    def set_loop_bound(k):
+        """declared termination bound of the harness: a `while` loop of the code under test that runs more than k
+        iterations on this path counts as non-termination (raised as NonTermination, replayed natively under a timer)"""
+        E.loop_bound = k
+
     def load_class(module, qualname):
         m = E.load(module)
         o = m
@@ -1320,7 +1326,7 @@ def install_harness_api(E):
 
     api = dict(sym_int=sym_int, sym_bool=sym_bool, sym_bytes=sym_bytes, sym_str=sym_str, assume=assume, check=check,
                reach=reach, observe=observe, fork=fork, cp1252_enc=cp1252_enc, cp1252_dec=cp1252_dec, cp1252_ok=cp1252_ok,
-               str_of=str_of, cps_of=cps_of, tdiv=tdiv, exc_name=exc_name, is_vsx=is_vsx, forked=forked, load_class=load_class, set_range_cap=set_range_cap)
+               str_of=str_of, cps_of=cps_of, tdiv=tdiv, exc_name=exc_name, is_vsx=is_vsx, forked=forked, load_class=load_class, set_range_cap=set_range_cap, set_loop_bound=set_loop_bound)
     for k, f in api.items():
         B[k] = Native(f, k)
     E.plain = plain
